@@ -121,7 +121,7 @@ class C01(runner.Check):
   ]
   runs = {'quick': 6400, 'thorough': 80000}
   budget_s = {'quick': 100, 'thorough': 1200}
-  chunk = 20
+  chunk = 40
   probes = ['probe.suggest-served', 'probe.early-stop-answered',
             'probe.metadata-rejected-missing-trial', 'clock.jump_back', 'clock.freeze',
             'probe.early-stop-recycled', 'probe.early-stop-from-recent-operation']
